@@ -12,7 +12,7 @@ RULE = ("indentation strings of 0..8 spaces/tabs; partial bodies built from line
         "rendered by the real crate in the same session; non-trivial = the partial writes ≥ 2 lines; distinct by "
         "(W, body, data)")
 DEFINITE_FLOOR = 0.8
-ASSUMPTIONS = ["a nested partial that is not alone on its line is excluded from the random stream (known finding F13) and runs as a listed witness",
+ASSUMPTIONS = [
                "data strings with a lone CR are outside the quantifier (F11: whether a lone CR is a line break is not decided by the property)"]
 DATA = {"one": [1], "s": "one", "m": "l1\nl2", "m3": "a\nb\nc\n", "e": "", "t": True, "f": False, "nl": "\n", "crlf": "x\r\ny",
         "ys": ["y1", "y2"], "o": {"k": "v\nw"}, "lead": "\nafter", "sp": "  "}
@@ -43,7 +43,13 @@ def body_lines(rng, level, names):
     lines = []
     for _ in range(rng.range(1, 5)):
         k = rng.weighted([("text", 4), ("expr", 5), ("mixed", 3), ("ifinline", 2), ("ifblock", 2), ("each", 2),
-                          ("nested", 3 if level > 0 and names else 0), ("blank", 1), ("comment", 1), ("free", 4)])
+                          ("nested", 3 if level > 0 and names else 0), ("blank", 1), ("comment", 1), ("free", 4),
+                          ("nestedinline", 2 if level > 0 and names else 0)])
+        if k == "nestedinline":
+            # a nested partial that is NOT alone on its line (no indentation of its own is captured; before the repair
+            # F13/F16 its first line lost the caller's indentation)
+            lines.append(rng.pick(["{{> %s}}x\n", "x {{> %s}}\n", "{{> %s}}{{{s}}}\n", "  {{> %s}} y\n"]) % rng.pick(names))
+            continue
         if k == "free":
             lines.append("q" + free_pieces(rng, 2) + "r\n")
             continue
@@ -69,6 +75,12 @@ def body_lines(rng, level, names):
     if rng.chance(0.3) and body.endswith("\n"):
         body = body[:-1]
     return body
+
+
+def inline_nested(body):
+    """a nested partial call that shares its line with other output: where its first line starts is inside a line"""
+    import re
+    return any("{{> " in ln and not re.fullmatch(r"[ \t]*\{\{> \w+\}\}", ln) for ln in body.split("\n"))
 
 
 def gen_case(rng, i):
@@ -107,7 +119,7 @@ def gen_case(rng, i):
         ops.append({"op": "render", "reg": 0, "api": "render", "name": "p", "data": enc(DATA)})
     uses_root = False
     return {"kind": "session", "regs": [cfg], "ops": ops}, {"W": W, "where": where, "n": n, "pi": pi, "p": p,
-                                                             "glue": not (r1.endswith("\n") and r2.endswith("\n"))}
+                                                             "glue": not (r1.endswith("\n") and r2.endswith("\n")) or inline_nested(r1) or inline_nested(p)}
 
 
 def generate(rng, n, tier="quick"):
